@@ -17,7 +17,6 @@ import (
 	"fmt"
 	"net/http"
 	"os"
-	"os/exec"
 	"path/filepath"
 	"sort"
 	"strings"
@@ -256,7 +255,7 @@ func init() {
 			enc.Encode(j)
 		}
 		f.Close()
-		if b, err := exec.Command(drv, "schema", c.Repo, sin, sout).CombinedOutput(); err != nil {
+		if b, err := driverCmd(c, drv, "schema", c.Repo, sin, sout).CombinedOutput(); err != nil {
 			c.Infra("schema driver: %v\n%s", err, core.Tail(string(b), 1500))
 		}
 		schemaOK := make([]bool, len(jobs))
